@@ -120,7 +120,8 @@ pub struct TrackSpec {
 #[derive(Clone, Debug, Serialize, Deserialize)]
 pub struct TrackSet {
     pub tracks: Vec<TrackSpec>,
-    /// (source index fraction, kind): 0 identical copy, 1 same z0, 2 same radius
+    /// (source index fraction, kind): 0 identical copy, 1 same z0, 2 same radius,
+    /// 3 the same curve in the other radius convention, inserted before its source
     pub ties: Vec<(u16, u8)>,
 }
 impl TrackSet {
@@ -131,6 +132,21 @@ impl TrackSet {
                 break;
             }
             let mut s = specs[crate::gen::pick(f, specs.len())].clone();
+            if kind == 3 {
+                // the twin of the negative-radius convention: (r, phi0) <-> (-r, phi0 + pi) is
+                // toggled by the flag; bit-exact twins need the flag on the copy of a plain spec
+                // S = (r, x + pi) and its twin T = (-r, x), which the library's own
+                // normalisation (phi0 + HALF_TURN) maps onto S bit for bit
+                let k = crate::gen::pick(f, specs.len());
+                let x = specs[k].params[4].0;
+                specs[k].negative_radius = false;
+                specs[k].params[3] = Fx(specs[k].params[3].0.abs());
+                let mut twin = specs[k].clone();
+                specs[k].params[4] = Fx(x + PI);
+                twin.params[3] = Fx(-twin.params[3].0);
+                specs.insert(k, twin);
+                continue;
+            }
             match kind % 3 {
                 0 => {}
                 1 => s.params[4] = Fx(s.params[4].0 + 0.3),
@@ -157,7 +173,7 @@ impl TrackSet {
 }
 pub fn track_set() -> impl Strategy<Value = TrackSet> {
     let spec = (prop_oneof![6 => axis_helix(), 2 => helix_params(), 2 => beamline_helix(), 1 => origin_helix()], -PI..=PI, -PI..=PI, prop::bool::weighted(0.15)).prop_map(|(p, a, b, negative_radius)| TrackSpec { params: fx6(p), t_inner: Fx(a), t_outer: Fx(b), negative_radius });
-    (vec(spec, 0..=8), vec((any::<u16>(), 0u8..3), 0..=3)).prop_map(|(tracks, ties)| TrackSet { tracks, ties })
+    (vec(spec, 0..=8), vec((any::<u16>(), 0u8..4), 0..=3)).prop_map(|(tracks, ties)| TrackSet { tracks, ties })
 }
 
 fn vertex_case(c: &TrackSet, ev: &mut Ev) -> Outcome {
